@@ -87,6 +87,7 @@ THEOREMS = {
         "Shroud.Interop.struct_fields_interop",
         "Shroud.Interop.struct_fields_length",
         "Shroud.Interop.struct_member_old_not_interop",
+        "Shroud.Interop.struct_member_unreversed_not_interop",
         "Shroud.Interop.protoItem_length",
         "Shroud.Interop.ifaceItem_length",
         "Shroud.Interop.typemap_members_ok",
@@ -438,9 +439,9 @@ def tie_structs(ctx, res, replay, drv_lines, drv_meta):
         for var in node.variables:
             ast = var.ast
             vt = ast.typemap
-            alen = 0
+            alen = []
             if ast.array:
-                alen = ip._extent([todict.print_node(x) for x in ast.array])
+                alen = ip.dims_list([todict.print_node(x) for x in ast.array])
                 if alen is None:
                     okm = False
                     break
@@ -453,7 +454,8 @@ def tie_structs(ctx, res, replay, drv_lines, drv_meta):
             if cb is None or fb is None:
                 okm = False
                 break
-            mems.append("%d,%d,%d,%d,%d,%d" % (cb[0], 1 if cb[0] in (4, 5) else cb[1], fb[0], 1 if fb[0] == 5 else fb[1], ast.is_indirect(), alen))
+            mems.append("%d,%d,%d,%d,%d,%s" % (cb[0], 1 if cb[0] in (4, 5) else cb[1], fb[0], 1 if fb[0] == 5 else fb[1], ast.is_indirect(),
+                                               "x".join(str(x) for x in alen) or "-"))
         if not okm:
             continue
         meta = {"kind": "struct", "lib": res["tag"], "function": "struct " + node.name, "replay": dict(replay, struct=node.name)}
@@ -462,11 +464,12 @@ def tie_structs(ctx, res, replay, drv_lines, drv_meta):
         if ft is None or ft["error"]:
             meta["error"] = "derived type %s not found/parsable in the generated module" % tm.f_derived_type
         else:
-            meta["fact"] = ["%s.%d" % (f_code(dcl, env).rsplit(".", 2)[0], ip._extent(dcl["extent"].split(",")) or 0 if dcl["shape"] == "array" else 0)
+            dl = lambda xs: "x".join(re.sub(r"\s+", "", x) for x in xs) or "-"
+            meta["fact"] = ["%s.%s" % (f_code(dcl, env).rsplit(".", 2)[0], dl(ip.split_top(dcl["extent"])) if dcl["shape"] == "array" else "-")
                             for _n, dcl in ft["fields"]]
             meta["cact"] = None
             if isinstance(cs, list) and node.wrap.c and res.get("language_cxx"):
-                meta["cact"] = ["%s.%d" % (c_code(dict(f, array=None), env), ip._extent(f["array"]) or 0 if f.get("array") else 0) for f in cs]
+                meta["cact"] = ["%s.%s" % (c_code(dict(f, array=None), env), dl(f["array"]) if f.get("array") else "-") for f in cs]
         ctx.count(1)
         ctx.nontrivial(("struct-members", len(mems)))
         drv_meta.append(meta)
@@ -1200,6 +1203,8 @@ def c_same(a, b, structs, gstructs, ret=False):
         if len(ca) != len(cb_):
             return False
         return all(c_same(x, y, structs, gstructs) and (ip._extent(x["array"]) if x.get("array") else 0) == (ip._extent(y["array"]) if y.get("array") else 0)
+                   and ((ip.dims_list(x["array"]) if x.get("array") else []) == (ip.dims_list(y["array"]) if y.get("array") else [])
+                        or len(y.get("array") or []) <= 1)
                    for x, y in zip(ca, cb_))
     return ba == bb
 
@@ -1291,7 +1296,9 @@ def extra_decls(r, language, k):
     members = ["bool flag;", "char tag;", "char name[%d];" % r.randrange(2, 30), "%s grid[%d][%d];" % (t2(), r.randrange(2, 4), r.randrange(2, 5)),
                "%s *p;" % t2(), "const %s *q;" % t2(), "%s *tab[%d];" % (t2(), r.randrange(2, 5)), "C04in%d inner;" % k, "C04in%d *pin;" % k,
                "%s i8;" % r.choice(["int8_t", "int16_t", "uint32_t", "int64_t"]), "size_t n;", "%s v[%d];" % (t2(), r.randrange(2, 6)),
-               "long long ll;", "unsigned short us;"]
+               "long long ll;", "unsigned short us;",
+               "%s *ptab[%d][%d];" % (t2(), 2, r.randrange(3, 6)), "%s cube[%d][%d][%d];" % (t2(), 2, 3, r.randrange(4, 6)),
+               "const %s *pcube[%d][%d][%d];" % (t2(), r.randrange(4, 6), 2, 3)]
     r.shuffle(members)
     members = members[: r.randrange(4, len(members) + 1)]
     return [{"decl": "struct C04in%d { %s a; double b; };" % (k, r.choice(["int", "short", "char"]))},
